@@ -213,6 +213,20 @@ func propG(c GCase) error {
 		if d := diffJSON(exp, bm); d != "" {
 			return fmt.Errorf("round trip differs: %s\n%s", d, clip(string(data)))
 		}
+		// the bytes returned belong to the caller: overwritten, they must not come back
+		{
+			mine := append([]byte(nil), data...)
+			first, err := geojson.Marshal(t)
+			if err != nil {
+				return fmt.Errorf("geojson.Marshal: %v", err)
+			}
+			for i := range first {
+				first[i] = '#'
+			}
+			if again, err := geojson.Marshal(t); err != nil || !bytes.Equal(again, mine) {
+				return fmt.Errorf("geojson.Marshal after the caller overwrote the slice returned by an earlier Marshal: %s, %v; want %s", clip(string(again)), err, clip(string(mine)))
+			}
+		}
 		// the decoded geometry owns its coordinates: the caller overwrites the byte slice it
 		// handed over and the geometry stays what it was
 		{
